@@ -188,7 +188,7 @@ func c01deadline(env string, def time.Duration) time.Duration {
 // leakedAfterQuiescence polls until no goroutine created since `baseline` has a frame inside the
 // library, or the (generous) deadline passes; it returns what is left.
 func leakedAfterQuiescence(baseline map[int]bool) []string {
-	deadline := time.Now().Add(c01deadline("VERIF_LEAK_DEADLINE_MS", 5*time.Second))
+	deadline := time.Now().Add(c01deadline("VERIF_LEAK_DEADLINE_MS", 10*time.Second))
 	pause := 20 * time.Microsecond
 	for {
 		runtime.Gosched()
@@ -227,7 +227,7 @@ func leakedAfterQuiescence(baseline map[int]bool) []string {
 // waitParked polls until a goroutine whose stack contains `marker` is parked in a select or a
 // channel receive inside ChanReceive.Read (or the deadline passes: then false).
 func waitParked(marker string) bool {
-	deadline := time.Now().Add(c01deadline("VERIF_HANG_DEADLINE_MS", 20*time.Second))
+	deadline := time.Now().Add(c01deadline("VERIF_HANG_DEADLINE_MS", 30*time.Second))
 	for {
 		for _, g := range allGoroutines() {
 			if strings.Contains(g.text, marker) && strings.Contains(g.text, "ChanReceive") &&
@@ -339,7 +339,7 @@ func withinHang(f func()) bool {
 	select {
 	case <-done:
 		return true
-	case <-time.After(c01deadline("VERIF_HANG_DEADLINE_MS", 20*time.Second)):
+	case <-time.After(c01deadline("VERIF_HANG_DEADLINE_MS", 30*time.Second)):
 		return false
 	}
 }
@@ -517,7 +517,7 @@ func blocked(cfg *c01cfg, o *c01obs, it *fun.Iterator[int], ctx context.Context,
 		consume(cfg, o, 0, it, ctx, cancel, total)
 	}()
 	// the source never ends: once every input item has been delivered the next ReadOne parks
-	hangBy := time.Now().Add(c01deadline("VERIF_HANG_DEADLINE_MS", 20*time.Second))
+	hangBy := time.Now().Add(c01deadline("VERIF_HANG_DEADLINE_MS", 30*time.Second))
 	for int(total.Load()) < len(cfg.input) && time.Now().Before(hangBy) {
 		select {
 		case <-done:
@@ -535,7 +535,7 @@ func blocked(cfg *c01cfg, o *c01obs, it *fun.Iterator[int], ctx context.Context,
 			o.mu.Lock()
 			o.idem = "1"
 			o.mu.Unlock()
-		case <-time.After(c01deadline("VERIF_HANG_DEADLINE_MS", 20*time.Second)):
+		case <-time.After(c01deadline("VERIF_HANG_DEADLINE_MS", 30*time.Second)):
 			o.mu.Lock()
 			o.idem = "0"
 			o.mu.Unlock()
@@ -551,7 +551,7 @@ func blocked(cfg *c01cfg, o *c01obs, it *fun.Iterator[int], ctx context.Context,
 			o.released = "unparked"
 		}
 		o.mu.Unlock()
-	case <-time.After(c01deadline("VERIF_HANG_DEADLINE_MS", 20*time.Second)):
+	case <-time.After(c01deadline("VERIF_HANG_DEADLINE_MS", 30*time.Second)):
 		o.mu.Lock()
 		o.released = "0"
 		o.mu.Unlock()
